@@ -60,12 +60,13 @@ structure Classes (c : Ctx) : Prop where
   constO : ∀ x, x ∈ c.consts → ∀ l ∈ c.O x, l = .var x
   skO : ∀ x, x ∈ c.sk → ∀ l ∈ c.O x, c.cloc l = true ∨ c.shloc l = true
   globO : ∀ x, x ∈ c.globals → ∀ l ∈ c.O x, c.cloc l = true
+  constI : ∀ x, x ∈ c.consts → Loc.var x ∈ c.O x
 
 theorem classes_of (c : Ctx) (h : classesOK c = true) : Classes c := by
   simp only [classesOK, Bool.and_eq_true] at h
-  obtain ⟨⟨⟨⟨⟨⟨⟨⟨⟨h1, h2⟩, h3⟩, h4⟩, h5⟩, h6⟩, h7⟩, h8⟩, h9⟩, h10⟩ := h
+  obtain ⟨⟨⟨⟨⟨⟨⟨⟨⟨⟨h1, h2⟩, h3⟩, h4⟩, h5⟩, h6⟩, h7⟩, h8⟩, h9⟩, h10⟩, h11⟩ := h
   exact ⟨fun _ => disjoint_spec h1, fun _ => disjoint_spec h2, fun _ => disjoint_spec h3, fun _ => disjoint_spec h4,
-    fun _ => disjoint_spec h5, fun _ => disjoint_spec h6, by simpa using h7, by simpa using h8, by simpa using h9, by simpa using h10⟩
+    fun _ => disjoint_spec h5, fun _ => disjoint_spec h6, by simpa using h7, by simpa using h8, by simpa using h9, by simpa using h10, by simpa using h11⟩
 
 theorem Classes.nloc_of_ns {c : Ctx} (k : Classes c) {x : Var} (h : x ∈ c.ns) : c.nloc (.var x) = true := by
   simp only [Ctx.nloc, Ctx.cloc, Ctx.shloc, Bool.and_eq_true, Bool.not_eq_true', Bool.or_eq_false_iff, List.contains_eq_mem,
